@@ -42,7 +42,10 @@ class Sgp4(AnalyticalPropagator):
 
     @staticmethod
     def _state(orbit):
-        return orbit.tobytes(), orbit.date, orbit.form, orbit.frame
+        # Everything the satellite record is computed from : the coordinates and
+        # the drag terms carried by the orbit
+        drag = tuple(orbit._data.get(k) for k in ("bstar", "ndot", "ndotdot"))
+        return orbit.tobytes(), orbit.date, orbit.form, orbit.frame, drag
 
     def propagate(self, date):
         """Propagate the initialized orbit
